@@ -200,7 +200,7 @@ class CmdScenario(wfscn.ProgScenario):
                         tname not in self.only_tasks:
                     continue
                 n_same = sum(1 for x in ts if x[1] == tname)
-                if n_same > 1:
+                if n_same > 1 or getattr(self, 'label_by_id', False):
                     tname = '%s.%s' % (tname, tid[-4:])
                 if self._allowed('rerun'):
                     out.append(self._mk('rerun', tname, self._engine_cmd(
